@@ -290,7 +290,7 @@ def compare_line(line, obs, exp, res, count=True):
     if kind == "T":
         return out + compare_T(line, obs, exp, res, count)
     so, se = split_sections(obs), split_sections(exp)
-    names = {"X": ["size", "structure", "value", "integral", "max", "vectorize"], "E": ["size", "structure", "value"],
+    names = {"X": ["size", "structure", "value", "integral", "max", "vectorize", "vectorize-beyond-last-level", "find_max-beyond-last-level"], "E": ["size", "structure", "value"],
              "G": ["structure", "value", "vectorize"], "H": ["value"]}[kind]
     if len(so) != len(se) or len(so) != len(names):
         return out + [("%s:format" % kind, "answer has %d sections, expected %d" % (len(so), len(se)), exp[:300], obs[:300])]
